@@ -49,6 +49,14 @@ structure StringCondition where
   Max : String := ""
 deriving Repr, DecidableEq, Inhabited
 
+/-- `PrefilterCondition` of query.go (pointer fields as `Option`). -/
+structure PrefilterCondition where
+  ConditionType : String := ""
+  PartitionCondition : Option StringCondition := none
+  MinMaxFieldName : String := ""
+  MinMaxCondition : Option NumericCondition := none
+deriving Repr, Inhabited
+
 /-- `blockMergeShape` of merge.go. -/
 structure blockMergeShape where
   rows : Int
